@@ -19,7 +19,15 @@ import logging
 from common import Ctx, Failure, cjson, clist, copt, cpair, cstr, cnat, corpus_cases
 
 COQ_TARGETS = ["props/P_C12.vo", "corr/Corr_C12.vo"]
-PROOF_FILES = ["proofs/Overlay_proofs.v", "proofs/CrossModel_proofs.v"]
+PROOF_FILES = ["proofs/Overlay_proofs.v", "proofs/CrossModel_proofs.v", "proofs/DeepOverlay_sync.v"]
+
+
+def pre_build():
+    """regenerate coq/gen/DeepOverlay_gen.v from /repo's current cel/functions.py::_deep_overlay (fail-closed translator)"""
+    import translate_overlay
+    translate_overlay.main()
+
+
 RULE = ("(base, overlay document, inputs) triples: overlay documents are generated RELATIVE to the base so that "
         "every key-overlap pattern occurs (new key, same key scalar/list/empty-map/computed-map over map, map over "
         "scalar/list/null, map over map to depth 5, keys with dots); all ordered overlay tree shapes up to a node bound "
@@ -48,6 +56,7 @@ ASSUMPTIONS = [
 TRUSTED = [
     "the purity clause of C12 is checked by testing only (deep-copy snapshots before/after each evaluation, evaluation repeated)",
     "in-memory API double (harness/cluster.py, or the plugin-local MiniApi stub as fallback) used for the reconcile_resource_function level",
+    "harness/translate_overlay.py (Python-ast -> Gallina transcription of cel/functions._deep_overlay; conventions in its docstring: deepcopy = identity, no error objects among the values, explicit fuel)",
     "the re-prepare flow relies on koreo.cache's monitor tasks running on the harness event loop (asyncio.sleep(0) yields until the cached function object changes)",
 ]
 
